@@ -244,7 +244,7 @@ func (e *Engine) VerifyFunc(con *Contract, workdir string, timeoutS int, all boo
 		x.heap0 = st.heap.clone()
 		x.computeModLocs(con)
 		x.runFunction(fn, st, args, free, 0, false, func(st2 *State, r *SV) {
-			penv := &Env{x: x, vars: map[string]*SV{}, heap: st2.heap, old: x.heap0}
+			penv := &Env{x: x, vars: map[string]*SV{}, heap: st2.heap, old: x.heap0, markHeap: st2.markHeap}
 			for k, v := range x.entryEnv {
 				penv.vars[k] = v
 			}
